@@ -1464,7 +1464,9 @@ func (g *Gen) opQStep() bool {
 		g.emit(fmt.Sprintf("qclose q%d", q))
 		g.openQueries = append(g.openQueries[:i], g.openQueries[i+1:]...)
 		if g.chance(g.cfg.misuse * 0.7) {
-			g.emit(fmt.Sprintf("%s q%d", []string{"qnext", "qget", "qclose"}[g.pick(3)], q))
+			for n := 1 + g.pick(2); n > 0; n-- {
+				g.emit(fmt.Sprintf("%s q%d", []string{"qnext", "qnext", "qget", "qclose"}[g.pick(4)], q))
+			}
 		}
 	case 4:
 		g.emit(fmt.Sprintf("qget q%d", q))
@@ -1479,12 +1481,15 @@ func (g *Gen) opQStep() bool {
 				g.h.lastOK, g.h.lastRes = true, "1 "
 			}
 		}
-		// an exhausted (or failed) query is dropped; with a small probability it gets exactly
-		// one further misuse call (Next/Get/Close after exhaustion)
+		// an exhausted (or failed) query is dropped; with some probability it gets one to three
+		// further misuse calls (Next/Get/Close after exhaustion)
 		if !g.queryActive(q) {
 			g.openQueries = append(g.openQueries[:i], g.openQueries[i+1:]...)
 			if g.chance(g.cfg.misuse) {
-				g.emit(fmt.Sprintf("%s q%d", []string{"qnext", "qget", "qclose"}[g.pick(3)], q))
+				// every further access must be rejected, not only the first (defect D16)
+				for n := 1 + g.pick(3); n > 0; n-- {
+					g.emit(fmt.Sprintf("%s q%d", []string{"qnext", "qnext", "qget", "qclose"}[g.pick(4)], q))
+				}
 			}
 		}
 	}
